@@ -256,6 +256,20 @@ fn explicit_cases() -> Vec<(String, Vec<u8>, String)> {
             }
         }
     }
+    // iCE Draw: run length records with 16 bit counts behind a header that declares a small rectangle
+    for (x2, y2) in [(79u16, 0u16), (0, 0), (79, 24), (79, 199)] {
+        for records in [5usize, 50] {
+            let mut b = b"\x041.4".to_vec();
+            for v in [0u16, 0, x2, y2] {
+                b.extend(v.to_le_bytes());
+            }
+            for _ in 0..records {
+                b.extend([1, 0, 0xFF, 0xFF, 0x41, 0x07]);
+            }
+            b.extend(vec![0u8; 4096 + 48]);
+            v.push(("x.idf".into(), b, format!("iCE Draw file declaring {}x{} followed by {records} runs of 65535 cells", x2 + 1, y2 + 1)));
+        }
+    }
     // IcyDraw layer records that declare no columns and an extreme number of rows (with and without data behind)
     for w in [0i32, -1, i32::MIN] {
         for h in [i32::MAX, 1 << 24, 1 << 16] {
@@ -559,7 +573,7 @@ impl Engine for Load {
                 Stratum::Tokens { .. } => "control token streams (depth 1 and 2) as files of the text formats",
                 Stratum::Names(_) => "file names without / with odd extensions",
                 Stratum::Equations(_) => "PSF2 headers whose fields solve the loader's length equation with extreme operands",
-                Stratum::Explicit(_) => "explicit files: fonts of degenerate size followed by a sixel image, sparse cursor jumps under a SAUCE record with an extreme height, UTF-8 files with characters above U+00FF behind every lead-in, IcyDraw layers without columns and with extreme row counts, IcyDraw layer records with extreme 64 bit lengths",
+                Stratum::Explicit(_) => "explicit files: fonts of degenerate size followed by a sixel image, sparse cursor jumps under a SAUCE record with an extreme height, UTF-8 files with characters above U+00FF behind every lead-in, iCE Draw run length records behind small declared rectangles, IcyDraw layers without columns and with extreme row counts, IcyDraw layer records with extreme 64 bit lengths",
             };
             let e = m.entry(k).or_insert((0, 0));
             e.0 += 1;
